@@ -1,10 +1,12 @@
 """C14 -- generated SQL carries every literal and identifier verbatim.
-proof: Props/C14.v over Gen/G_Quote.v / Gen/G_QuoteMySQL.v (quote_identifier, quote_string, _clean_annotation regenerated
-       each run) against the lexing rules of Model/Lex.v
-tie:   translator + correspondence (nasty strings through the real functions of all five dialects and the generated Gallina)
-oracle: execution on SQLite (SQLite and PostgreSQL dialect text): literals, names, labels, record-map keys, annotations;
-        reference lexers for the backslash family (MySQL / BigQuery / Spark)"""
-import json, os, warnings
+proof: Props/C14.v over Gen/G_Quote.v / Gen/G_QuoteMySQL.v / Gen/G_ValueToSql.v (quote_identifier, quote_string, _clean_annotation,
+       value_to_sql regenerated each run) against the lexing rules of Model/Lex.v; Python values, str(int), repr(float) in
+       Model/PyVal.v; concat_rows labels and record-map SQL as a token model in Model/RecMapSql.v
+tie:   translator + correspondence (nasty strings and values of every kind through the real functions of all five dialects and the
+       generated Gallina; the label text value_to_sql returned; the record-map line lists against the rendered token model)
+oracle: execution on SQLite (SQLite and PostgreSQL dialect text): literals, numbers, names, labels, record-map keys, annotations;
+        reference lexers (strings: both families; numbers / NULL / TRUE / FALSE: one regular expression)"""
+import json, math, os, re, warnings
 import lib
 from lib import clist, cstr, cbool
 
@@ -155,12 +157,30 @@ def sqlite_oracle(chk, n):
     for i in range(n):
         s = rng.choice(pool) if rng.random() < 0.5 else rand_string(rng)
         s2 = rand_string(rng, 4)
-        kind = rng.choice(["literal", "literal", "select", "is_in", "mapv", "column", "table", "label", "recordmap", "annotation"])
+        kind = rng.choice(["literal", "literal", "select", "is_in", "mapv", "column", "table", "label", "recordmap", "annotation", "number"])
         dname, model = rng.choice(sorted(dialects.items()))
         case = {"kind": "impl-violation", "oracle": "sqlite", "use": kind, "dialect_text": dname, "string": s, "other": s2}
         chk.count(("sqlite", kind, dname, s, s2), nontrivial=len(s) > 0)
         chk.dist("sqlite:" + kind)
         try:
+            if kind == "number":
+                v = rand_float(rng) if rng.random() < 0.7 else rng.randint(-10 ** 15, 10 ** 15)
+                case["value"] = repr(v)
+                d = pd.DataFrame({"x": [1]})
+                try:
+                    r = run_sqlite(descr(d=d).extend({"v": Value(v)}).to_sql(model), {"d": d})
+                    got = r["v"][0]
+                    if isinstance(v, float) and math.isnan(v):
+                        bad = not (got is None or got != got)
+                    else:
+                        bad = got is None or got != got or not (abs(float(got) - v) <= 1e-8 * max(abs(v), 1.0) or float(got) == v)
+                    err = None
+                except Exception as e:
+                    bad, err, got = True, repr(e)[:200], None
+                if bad:
+                    chk.impl_violation(f"numeric value does not survive the SQL ({dname} text on SQLite)", {**case, "observed": repr(got), "error": err},
+                                       {"oracle": "value", "kind": "float_inf" if isinstance(v, float) and math.isinf(v) else "number"})
+                continue
             if kind in ("literal", "select", "is_in", "mapv"):
                 d = pd.DataFrame({"x": [1, 2, 3], "g": [s, s2, "zz"]})
                 if kind == "literal":
@@ -229,13 +249,326 @@ def sqlite_oracle(chk, n):
                                {**case, "error": repr(e)[:300]}, {"oracle": "sqlite", "use": kind, "error": type(e).__name__})
 
 
+# ---------------- Coq literals for Python values (Model/PyVal.v)
+def float_triple(x):
+    """(neg, digits, decpt) as CPython's shortest conversion gives them: value = 0.d1..dn * 10^decpt"""
+    from decimal import Decimal
+    sign, digits, exp = Decimal(repr(x)).as_tuple()
+    ds = list(digits)
+    n0 = len(ds)
+    if all(d == 0 for d in ds):
+        return bool(sign), [0], 1
+    while len(ds) > 1 and ds[-1] == 0:
+        ds.pop()
+    while len(ds) > 1 and ds[0] == 0:
+        ds.pop(0); n0 -= 1
+    return bool(sign), ds, n0 + exp
+
+
+def cval(v):
+    import data_algebra.expr_rep as er
+    if v is None:
+        return "PNone"
+    if isinstance(v, er.ListTerm):
+        return "(PListTerm %s)" % clist([cval(x) for x in v.value])
+    if isinstance(v, er.Value):
+        return "(PValue %s)" % cval(v.value)
+    if isinstance(v, str):
+        return "(PStr %s)" % cstr(v)
+    if isinstance(v, bool):
+        return "(PBool %s)" % cbool(v)
+    if type(v) is float:
+        if math.isnan(v):
+            return "(PFloat FNan)"
+        if math.isinf(v):
+            return "(PFloat (FInf %s))" % cbool(v < 0)
+        neg, ds, decpt = float_triple(v)
+        return "(PFloat (FFin %s %s %s))" % (cbool(neg), clist(["d%d" % d for d in ds]), lib.cz(decpt))
+    if type(v) is int:
+        return "(PInt %s)" % lib.cz(v)
+    if type(v) is list:
+        return "(PList %s)" % clist([cval(x) for x in v])
+    if type(v) is tuple:
+        return "(PTuple %s)" % clist([cval(x) for x in v])
+    return "(POther %s)" % cstr(str(v))          # any other object (numpy scalars ...): str(v)
+
+
+def cchar(c):
+    return "(ascii_of_nat %d)" % ord(c)
+
+
+FAM = {"SQLite": "std", "PostgreSQL": "std", "MySQL": "backslash", "BigQuery": "backslash", "SparkSQL": "backslash"}
+
+
+def cdialect(name, m):
+    return "(mk_dialect %s %s %s %s %s %s)" % ("Std" if FAM[name] == "std" else "Backslash", cchar(m.string_quote), cchar(m.identifier_quote),
+                                              cstr(m.string_type), cstr(m.union_all_term_start), cstr(m.union_all_term_end))
+
+
+NUM_RE = re.compile(r"^-?[0-9]+(\.[0-9]+)?([eE][+-]?[0-9]+)?$")
+
+
+def rand_float(rng):
+    k = rng.random()
+    if k < 0.08:
+        return rng.choice([0.0, -0.0, 1.0, -1.0, 1e16, 1e15, 9999999999999998.0, 1e-4, 1e-5, 0.1, 1e22, 1e100, 5e-324, 1.7976931348623157e308, 123456789012345678.0, 0.5, 100.0])
+    if k < 0.16:
+        return rng.choice([float("nan"), float("inf"), float("-inf")])
+    if k < 0.5:
+        return rng.choice([-1, 1]) * rng.random() * 10.0 ** rng.randint(-12, 25)
+    if k < 0.75:
+        return round(rng.uniform(-1000, 1000), rng.randint(0, 6))
+    return float(rng.randint(-10 ** 6, 10 ** 6)) * 10.0 ** rng.randint(-3, 14)
+
+
+def rand_value(rng, depth=0):
+    import data_algebra.expr_rep as er
+    import numpy as np
+    k = rng.random()
+    if k < 0.08:
+        return None
+    if k < 0.30:
+        return rng.choice(FIXED) if rng.random() < 0.4 else rand_string(rng)
+    if k < 0.38:
+        return rng.random() < 0.5
+    if k < 0.55:
+        return rng.choice([0, 1, -1, 7, -12, 10 ** 18, -10 ** 30, 2 ** 63]) if rng.random() < 0.4 else rng.randint(-10 ** 12, 10 ** 12)
+    if k < 0.80:
+        return rand_float(rng)
+    if k < 0.86 and depth < 2:
+        return er.Value(rand_value(rng, 3))
+    if k < 0.95 and depth < 1:
+        items = [rand_value(rng, 2) for _ in range(rng.randint(0, 4))]
+        return rng.choice([list, tuple, er.ListTerm])(items)
+    return rng.choice([np.int64(rng.randint(-50, 50)), np.float64(2.5), np.bool_(True)])
+
+
+def value_oracle(chk, name, m, v, text):
+    """from the property text: the emitted token is one literal of the dialect that denotes the same value"""
+    import data_algebra.expr_rep as er
+    if isinstance(v, er.Value):
+        v = v.value
+    case = {"kind": "impl-violation", "oracle": "value", "dialect": name, "value": repr(v), "sql": text}
+    if v is None or (type(v) is float and math.isnan(v)):
+        ok = text == "NULL"
+    elif isinstance(v, str):
+        r = (lex_std if FAM[name] == "std" else lex_bs)(m.string_quote, text + " AS x")
+        if FAM[name] != "std" and "\\" in v:
+            return        # the listed backslash-family finding is reported by lexer_oracle on the same strings
+        ok = r is not None and r[0] == v and r[1] == " AS x"
+    elif isinstance(v, bool):
+        ok = text == ("TRUE" if v else "FALSE")
+    elif type(v) is int:
+        ok = NUM_RE.match(text) is not None and "." not in text and "e" not in text.lower() and int(text) == v
+    elif type(v) is float:
+        ok = NUM_RE.match(text) is not None and float(text) == v and math.copysign(1, float(text)) == math.copysign(1, v)
+        if not ok:
+            chk.impl_violation(f"{name}: float value is not written as a numeric literal that denotes it", case,
+                               {"oracle": "value", "kind": "float_inf" if math.isinf(v) else "float"})
+            return
+    else:
+        return
+    if not ok:
+        chk.impl_violation(f"{name}: value is not written as one literal token that denotes it", case, {"oracle": "value", "kind": type(v).__name__})
+
+
+def value_correspondence(chk, n):
+    """value_to_sql on values of every kind, all five dialects: real vs regenerated (+ the literal-token oracle)"""
+    rng = chk.rng
+    ms = models()
+    terms, meta = [], []
+    fixed = [None, True, False, 0, -5, 10 ** 30, 1.5, -0.0, 1e16, 1e-5, 1.234e-7, float("nan"), float("inf"), float("-inf"), "it's", "\\", [1, "a'b", None], (1.0, 2)]
+    vals = fixed + [rand_value(rng) for _ in range(n)]
+    for i, v in enumerate(vals):
+        for name, m in (sorted(ms.items()) if i < len(fixed) else [rng.choice(sorted(ms.items()))]):
+            text = m.value_to_sql(v)
+            terms.append("VSql %s %s %s" % (cstr(m.string_quote), cval(v), cstr(text)))
+            meta.append({"fn": "value_to_sql", "dialect": name, "input": repr(v), "observed": text})
+            chk.count(("value", name, repr(v)), nontrivial=True)
+            chk.dist("value:" + type(v).__name__)
+            value_oracle(chk, name, m, v, text)
+    return terms, meta
+
+
+def label_correspondence(chk, n):
+    """concat_rows labels: the text value_to_sql returns for the label (spied on inside to_sql) vs the model, and its place in the SQL"""
+    import pandas as pd
+    from data_algebra.data_ops import descr
+    rng = chk.rng
+    terms, meta = [], []
+    for i in range(n):
+        name, m0 = rng.choice(sorted(models().items()))
+        calls = []
+
+        class Spy(type(m0)):
+            def value_to_sql(self, v):
+                r = super().value_to_sql(v)
+                calls.append((v, r))
+                return r
+        m = Spy()
+        a, b = (rng.choice(FIXED) if rng.random() < 0.5 else rand_string(rng)), rand_string(rng, 4) + "b"
+        d = pd.DataFrame({"x": [1, 2]})
+        ops = descr(d=d).concat_rows(descr(d=d), id_column="src", a_name=a, b_name=b)
+        chk.count(("label", name, a, b), nontrivial=len(a) > 0)
+        try:
+            sql = ops.to_sql(m)
+        except Exception as e:
+            chk.impl_violation(f"concat_rows with these labels: SQL cannot be produced ({name}): {type(e).__name__}",
+                               {"kind": "impl-violation", "oracle": "label", "dialect": name, "a_name": a, "b_name": b, "error": repr(e)[:300]},
+                               {"oracle": "label", "error": type(e).__name__})
+            continue
+        for lab in (a, b):
+            got = [r for v, r in calls if isinstance(v, str) and v == lab]
+            if not got or (got[0] + " AS " + m.quote_identifier("src")) not in sql:
+                chk.corr_break("concat_rows label does not reach the SQL as the literal value value_to_sql(label)",
+                               {"dialect": name, "label": lab, "value_to_sql_calls": [repr(c)[:80] for c in calls][:6], "sql": sql[:600]})
+                continue
+            terms.append("VLabel %s %s %s" % (cdialect(name, m0), cstr(lab), cstr(got[0])))
+            meta.append({"fn": "concat_rows label", "dialect": name, "input": lab, "observed": got[0]})
+    return terms, meta
+
+
+def scan_quoted(name, m, text):
+    """reference tokenizer for one dialect: the identifiers and string literals of `text`, in order (None if malformed)"""
+    idents, lits, i = [], [], 0
+    rd = lex_std if FAM[name] == "std" else lex_bs
+    while i < len(text):
+        c = text[i]
+        if c == m.identifier_quote:
+            j = text.find(m.identifier_quote, i + 1)
+            if j < 0:
+                return None
+            idents.append(text[i + 1:j]); i = j + 1
+        elif c == m.string_quote:
+            r = rd(m.string_quote, text[i:])
+            if r is None:
+                return None
+            lits.append(r[0]); i = len(text) - len(r[1])
+        else:
+            i += 1
+    return idents, lits
+
+
+def recordmap_oracle(chk, name, m, cols, names, keys, rkeys, to_blocks, pre, suf):
+    """from the property text: tokenized in the dialect, the record-map SQL reads back exactly the control table's names and
+    key values, and nothing else"""
+    strs = [v for c in names for v in cols[c] if isinstance(v, str)] + list(names) + list(rkeys)
+    if FAM[name] != "std" and any("\\" in x for x in strs):
+        return      # listed backslash-family finding
+    nrow = len(cols[names[0]])
+    vcols = [c for c in names if c not in keys]
+    exp_id = set(rkeys)
+    exp_lit = set()
+    if to_blocks:
+        exp_id |= set(names) | {"table_values"} | {v for c in vcols for v in cols[c]}
+        exp_lit |= {str(v) for c in vcols for v in cols[c]} | {v for c in names for v in cols[c] if isinstance(v, str)}
+    elif nrow == 1:
+        exp_id |= set(vcols) | {cols[c][0] for c in vcols}
+    else:
+        exp_id |= set(vcols) | set(keys) | {v for c in vcols for v in cols[c]}
+        exp_lit |= {str(v) for c in keys for v in cols[c]}
+    got_id, got_lit, bad = set(), set(), False
+    for line in pre + suf:
+        r = scan_quoted(name, m, line)
+        if r is None:
+            bad = True
+            break
+        got_id |= set(r[0]); got_lit |= set(r[1])
+    if bad or got_id != exp_id or got_lit != exp_lit:
+        chk.impl_violation(f"{name}: record-map SQL does not read back the control table's names / key values verbatim",
+                           {"kind": "impl-violation", "oracle": "recordmap-lexer", "dialect": name, "control_table": cols, "record_keys": rkeys,
+                            "control_table_keys": keys, "to_blocks": to_blocks, "sql_lines": pre + suf,
+                            "unexpected_literals": sorted(got_lit - exp_lit), "missing_literals": sorted(exp_lit - got_lit),
+                            "unexpected_identifiers": sorted(got_id - exp_id), "missing_identifiers": sorted(exp_id - got_id)},
+                           {"oracle": "recordmap-lexer", "family": FAM[name]})
+
+
+def recordmap_correspondence(chk, n):
+    """the line lists of row_recs_to_blocks / blocks_to_row_recs for random control tables with nasty strings, five dialects,
+    against the rendered token model"""
+    import pandas as pd
+    import data_algebra.cdata as cdata
+    rng = chk.rng
+    ms = models()
+    terms, meta = [], []
+
+    def cell(kind):
+        if kind == "int":
+            return rng.randint(0, 9)
+        return rng.choice(FIXED[1:]) if rng.random() < 0.4 else (rand_string(rng, 5) or "z")
+    tries = 0
+    while len(terms) < n and tries < 20 * n:
+        tries += 1
+        nrow = rng.choice([1, 1, 2, 2, 3])
+        nkey, nval = rng.choice([1, 1, 2]), rng.choice([1, 2, 2])
+        cols = {}
+        names = []
+        for j in range(nkey + nval):
+            nm = cell("str")
+            if nm in names:
+                nm = nm + str(j)
+            names.append(nm)
+        for j, nm in enumerate(names):
+            kind = "int" if (j < nkey and rng.random() < 0.25) else "str"
+            cols[nm] = [cell(kind) for _ in range(nrow)]
+        keys = names[:nkey]
+        rkeys = [cell("str") for _ in range(rng.choice([0, 1, 2]))]
+        try:
+            ct = pd.DataFrame(cols)
+            rs = cdata.RecordSpecification(ct, record_keys=rkeys, control_table_keys=keys)
+        except Exception:
+            continue
+        name, m = rng.choice(sorted(ms.items()))
+
+        def ccell(v):
+            return "(PStr %s)" % cstr(v) if isinstance(v, str) else "(POther %s)" % cstr(str(v))
+        crs = "(mk_recspec %s %s %s)" % (clist(["(%s, %s)" % (cstr(c), clist([ccell(v) for v in cols[c]])) for c in names]),
+                                        clist([cstr(c) for c in rkeys]), clist([cstr(c) for c in keys]))
+        for tb, fn in ((True, m.row_recs_to_blocks_query_str_list_pair), (False, m.blocks_to_row_recs_query_str_list_pair)):
+            try:
+                pre, suf = fn(rs)
+                obs = "(Some (%s, %s))" % (clist([cstr(x) for x in pre]), clist([cstr(x) for x in suf]))
+                err = None
+                recordmap_oracle(chk, name, m, cols, names, keys, rkeys, tb, pre, suf)
+            except (ValueError, AssertionError) as e:
+                obs, err, pre, suf = "None", type(e).__name__, None, None
+            terms.append("VRecMap %s %s %s %s" % (cdialect(name, m), crs, cbool(tb), obs))
+            meta.append({"fn": fn.__name__, "dialect": name, "control_table": cols, "record_keys": rkeys, "control_table_keys": keys,
+                         "observed": [pre, suf], "error": err})
+            chk.count(("recmap", name, tb, repr(cols), repr(rkeys)), nontrivial=True)
+            chk.dist("recmap:" + ("rendered" if err is None else "rejected"))
+    return terms, meta
+
+
+def more_correspondence(chk, n1, n2):
+    terms, meta = [], []
+    for t, mt in (value_correspondence(chk, n1), label_correspondence(chk, max(20, n2 // 2)), recordmap_correspondence(chk, max(100, n2))):
+        terms += t
+        meta += mt
+    pre = ("From Coq Require Import List Bool NArith ZArith String Ascii.\nImport ListNotations.\nOpen Scope string_scope.\n"
+           "From DA Require Import Base.PyRT Base.Cases Model.Lex Model.PyVal Model.RecMapSql Model.QuoteCases.\nOpen Scope list_scope.\n")
+    failing, errors, nchecked = lib.run_case_files("C14v", pre, terms, "check_cases", per_file=150)
+    chk.cov["correspondence_values"] = {"what": "value_to_sql (values of every kind, 5 dialects) real vs regenerated; concat_rows label text; record-map line lists vs rendered token model",
+                                        "cases": len(terms), "checked_in_coq": nchecked, "disagreements": len(failing), "errors": errors[:2],
+                                        "by_kind": {k: sum(1 for m in meta if m["fn"] == k) for k in sorted(set(m["fn"] for m in meta))}}
+    chk.cov["traces_validated_against_impl"] = nchecked
+    if errors:
+        chk.corr_break("correspondence case files (values / labels / record maps) failed to compile", errors[0])
+    for i in failing[:3]:
+        chk.corr_break("model of value_to_sql / concat label / record-map SQL disagrees with the implementation", meta[i])
+        if meta[i]["fn"] == "value_to_sql":
+            chk.sample({"disagreement": meta[i]})
+
+
 def run(chk):
     n1, n2 = N[chk.tier]
-    chk.prove(["G_Quote", "G_QuoteMySQL"], extra_vo=["theories/Model/QuoteCases.vo"])
-    chk.cov["trusted_base"] = ["Coq 8.16.1 kernel + vm_compute", "tools/py2v.py translator (sql_model.py quote_identifier/quote_string/_clean_annotation, MySQL.py quote_identifier)",
+    chk.prove(["G_Quote", "G_QuoteMySQL", "G_ValueToSql"], extra_vo=["theories/Model/QuoteCases.vo"])
+    chk.cov["trusted_base"] = ["Coq 8.16.1 kernel + vm_compute", "tools/py2v.py translator (sql_model.py quote_identifier/quote_string/_clean_annotation/value_to_sql [dispatch on the value's dynamic type, tests kept in source order], MySQL.py quote_identifier)",
+                               "Model/PyVal.v: Python values reaching value_to_sql and CPython's str(int), repr(float) [shortest digits + decimal point position -> text], math.isnan, str.join (library code, compared with CPython on every run)",
+                               "Model/RecMapSql.v: hand transcription of row_recs_to_blocks_query_str_list_pair / blocks_to_row_recs_query_str_list_pair / table_values_to_sql_str_list / _list_join_expecting_list as token lines, and of the concat_rows label term (compared line by line with the implementation on every run; pandas control table = named columns of cells, no nulls: RecordSpecification rejects them)",
                                "Base/PyStr.v models of str `in`, +, .strip(), .replace(), re.sub(<quote>, ..) and re.sub('(\\\\s|\\\\r|\\\\n)+', ..) on byte strings (ASCII whitespace only)",
                                "Model/Lex.v: SQL lexing rules of the standard family (SQLite, PostgreSQL) and of the backslash family (MySQL, BigQuery, Spark) written from documentation; only SQLite is executable here",
-                               "value_to_sql numeric/bool/None branches, record-map SQL and concat labels: covered by the SQLite execution oracle, not by a theorem"]
+                               "value_to_sql on list values: shape theorem only (items are written by value_to_sql); value_to_sql's last branch (str(v) of any other object, e.g. numpy scalars) is outside the theorems"]
     chk.assumptions = ["identifiers do not contain the dialect's identifier quote (guard of the property; the code rejects them)",
                        "annotation strings in the correspondence are ASCII (Unicode whitespace such as U+0085/U+2028 is outside the byte-level model)"]
     chk.cov["rule"] = ("23 fixed nasty strings + random strings (<=8 tokens over quotes, backslash, CR/LF/TAB, comment markers, percent, unicode, backtick) through quote_string / "
@@ -243,6 +576,7 @@ def run(chk):
                        "table name, concat label, record-map key and annotated pipeline text executed on SQLite with SQLite and PostgreSQL dialect text; non-trivial = non-empty string")
     if os.path.exists(os.path.join(lib.COQ, "theories/Model/QuoteCases.vo")):
         strings = generated_correspondence(chk, n1)
+        more_correspondence(chk, n1, n2)
     else:
         chk.corr_break("Model/QuoteCases.vo not built", "")
         strings = list(FIXED)
@@ -258,5 +592,48 @@ def replay(path):
         res = (lex_std if fam == "std" else lex_bs)(m.string_quote, m.quote_string(r["value"]) + " AS x")
         print("literal", m.quote_string(r["value"]), "reads back as", res)
         return 0 if res is not None and res[0] == r["value"] else 1
+
+    class _Chk:          # collects what the oracles report
+        def __init__(self):
+            self.v = []
+
+        def impl_violation(self, what, replay, sig=None):
+            self.v.append(what)
+
+        def count(self, *a, **k):
+            pass
+    c = _Chk()
+    if r.get("oracle") == "recordmap-lexer":
+        import pandas as pd
+        import data_algebra.cdata as cdata
+        m = models()[r["dialect"]]
+        cols, keys, rkeys = r["control_table"], r["control_table_keys"], r["record_keys"]
+        rs = cdata.RecordSpecification(pd.DataFrame(cols), record_keys=rkeys, control_table_keys=keys)
+        fn = m.row_recs_to_blocks_query_str_list_pair if r["to_blocks"] else m.blocks_to_row_recs_query_str_list_pair
+        pre, suf = fn(rs)
+        recordmap_oracle(c, r["dialect"], m, cols, list(cols), keys, rkeys, r["to_blocks"], pre, suf)
+        print("\n".join(pre + suf)); print(c.v)
+        return 1 if c.v else 0
+    if r.get("oracle") == "label":
+        import pandas as pd
+        from data_algebra.data_ops import descr
+        d = pd.DataFrame({"x": [1, 2]})
+        try:
+            sql = descr(d=d).concat_rows(descr(d=d), id_column="src", a_name=r["a_name"], b_name=r["b_name"]).to_sql(models()[r["dialect"]])
+            print(sql)
+            return 0
+        except Exception as e:
+            print("SQL cannot be produced:", repr(e)[:300])
+            return 1
+    if r.get("oracle") == "value" and "sql" in r:
+        try:
+            v = eval(r["value"], {"inf": float("inf"), "nan": float("nan"), "__builtins__": {}})
+        except Exception:
+            v = None
+        if isinstance(v, (int, float, str, bool)):
+            m = models()[r["dialect"]]
+            value_oracle(c, r["dialect"], m, v, m.value_to_sql(v))
+            print(repr(v), "->", m.value_to_sql(v), c.v)
+            return 1 if c.v else 0
     print(json.dumps(r, indent=1)[:3000])
     return 1
